@@ -458,6 +458,19 @@ def check_services(ctx, model, data, tag='', facts=None):
             sig = 'route-list'
             if [r[:2] for r in got_route] == [r[:2] for r in want['route']]:
                 sig = 'route-strictness'
+            elif len(got_route) == len(want['route']):
+                # only the east / west amplifier of an ILA hop differs, and that ILA site has another ILA site as neighbour
+                differing = [(g, w) for g, w in zip(got_route, want['route']) if g != w]
+                eff_ = wbk.effective_types(model)
+                nb_ = wbk.neighbours(model)
+
+                def ila_site(uid):
+                    return next((c for c in eff_ if eff_[c] == 'ILA' and uid and uid.endswith(f' in {c}') or
+                                 (uid and f' in {c} to ' in uid)), None)
+                sites = [ila_site(g[1]) for g, w in differing]
+                if all(sites) and all(ila_site(w[1]) == s_ for (g, w), s_ in zip(differing, sites)) and \
+                        all(any(eff_.get(n) == 'ILA' for n in nb_[s_]) for s_ in sites):
+                    sig = 'route-list:wrong-amplifier-of-an-ila-next-to-another-ila'
             ctx.violation(f'service{tag}-{sig}', f'{where}: sheet path {want["route"]}, request {got_route}')
     got_sync = [{'synchronization-id': s.get('synchronization-id'),
                  'ids': list((s.get('svec') or {}).get('request-id-number') or [])}
